@@ -425,4 +425,10 @@ MUTANTS += [
     dict(id="c18-patch-never-undone", property="C18", edits=[(I, "        finally:\n            _cache_marker.typechecker_hash = previous", "        finally:\n            pass")]),
     # F15 re-introduced: the marker is visible to every thread
     dict(id="c18-f15-process-wide-marker", property="C18", edits=[(I, "_cache_marker = threading.local()", "_cache_marker = type(\"_Marker\", (), {})()")]),
+    # F16 re-introduced: the hook's cache tag replaces the interpreter's optimisation level
+    dict(id="c18-f16-tag-drops-optimisation-level", property="C18", edits=[(I, 'optimization=f"{level}jaxtyping9{typechecker_hash}"', 'optimization=f"jaxtyping9{typechecker_hash}"')]),
+    # F17 re-introduced: a Python-level call after the memo has been pushed
+    dict(id="c05-f17-call-after-push", property="C05", edits=[("jaxtyping/_storage.py", '            getattr(_treeflatten_storage, "value", False),\n            getattr(_treepath_storage, "value", None),', '            get_treeflatten_memo(),\n            getattr(_treepath_storage, "value", None),')]),
+    # F18 re-introduced: the leaf-type helper switches itself off under python -O
+    dict(id="c08-f18-leaf-check-off-under-O", property="C08", edits=[("jaxtyping/_pytree_type.py", "            @typechecked(always=True)", "            @typechecked")]),
 ]
